@@ -32,18 +32,17 @@ type PTYSessionInterface interface {
 
 // ConPTYSession represents an active ConPTY session on Windows.
 type ConPTYSession struct {
-	cpty           *conpty.ConPty
-	process        windows.Handle
-	done           chan struct{}
-	exitCode       int32
-	err            error
-	ctx            context.Context
-	cancel         context.CancelFunc
-	releaseSession func() // Callback to release session slot
-	mu             sync.Mutex
-	closed         bool
-	handleClosed   bool // Track if process handle has been closed
-	cptyClosed     bool // Track if ConPTY has been closed
+	cpty         *conpty.ConPty
+	process      windows.Handle
+	done         chan struct{}
+	exitCode     int32
+	err          error
+	ctx          context.Context
+	cancel       context.CancelFunc
+	mu           sync.Mutex
+	closed       bool
+	handleClosed bool // Track if process handle has been closed
+	cptyClosed   bool // Track if ConPTY has been closed
 }
 
 // NewPTYSession creates a new ConPTY session on Windows.
@@ -103,19 +102,21 @@ func (e *Executor) NewPTYSession(ctx context.Context, meta *ShellMeta) (PTYSessi
 	}
 
 	session := &ConPTYSession{
-		cpty:           cpty,
-		process:        windows.Handle(handle),
-		done:           make(chan struct{}),
-		exitCode:       -1,
-		ctx:            sessionCtx,
-		cancel:         cancel,
-		releaseSession: e.ReleaseSession,
+		cpty:     cpty,
+		process:  windows.Handle(handle),
+		done:     make(chan struct{}),
+		exitCode: -1,
+		ctx:      sessionCtx,
+		cancel:   cancel,
 	}
 
 	// Wait for process exit in background
 	go func() {
 		defer close(session.done)
-		defer session.releaseSession() // Release session slot when process exits
+		// The session slot is released by the stream handler (releaseSession,
+		// guarded by ShellStream.Released) when the stream closes, exactly as on
+		// Unix. Releasing it here as well decremented the counter twice per
+		// session and let more than MaxSessions sessions run concurrently.
 
 		// Wait for process to exit
 		windows.WaitForSingleObject(session.process, windows.INFINITE)
